@@ -234,11 +234,14 @@ def stepCore (st : St) (l : Line) : St × List Msg :=
           | [n, v] => some (n, (fromHex v).getD [])
           | _ => none
        let get := fun (n : String) => (parts.find? (·.1 = n)).map (·.2)
-       let mine := legacyOf (l.args.nat "bits") recs (idxs "freed") (idxs "bad") (idxs "gone") (l.args.get "stale" = "1")
+       let mine0 := legacyOf (l.args.nat "bits") recs (idxs "freed") (idxs "bad") (idxs "gone") (l.args.get "stale" = "1")
+       -- tear=n: the harness cut n bytes off the legacy primary (inside its last record)
+       let mine : LegacyDir := { mine0 with data := mine0.data.take (mine0.data.length - l.args.nat "tear") }
        if (ra.get "img") = "" then [] else
        if some mine.data = get "data" ∧ some mine.index = get "index" ∧ mine.free.getD [] = (get "index.free").getD [] then [Msg.flag "legacy-writer-mirrored"]
        else [Msg.corr s!"legacy: the Lean mirror of the legacy writer (legacyOf) differs from the bytes written: data {mine.data.length}/{((get "data").getD []).length} index {mine.index.length}/{((get "index").getD []).length} free {(mine.free.getD []).length}/{((get "index.free").getD []).length}"]) ++
-      (if (idxs "freed").isEmpty then [] else [Msg.flag "legacy-freelist"]) ++ (if (idxs "bad").isEmpty then [] else [Msg.flag "legacy-bad-offset"]))
+      (if (idxs "freed").isEmpty then [] else [Msg.flag "legacy-freelist"]) ++ (if (idxs "bad").isEmpty then [] else [Msg.flag "legacy-bad-offset"]) ++
+      (if l.args.nat "tear" > 0 then [Msg.flag "legacy-torn-tail"] else []))
   | "rmsnap" => ({ st with store := { st.store with disk := { st.store.disk with snap := none } } }, [Msg.flag "reopen-rescan"])
   | "badsnap" =>
     let d := st.store.disk
